@@ -780,7 +780,8 @@ static bool_t rngIsValid_internal()
 bool_t rngIsValid()
 {
 	bool_t b;
-	if (!_inited)
+	// инициализация завершена? (триггер читается атомарно)
+	if (mtAtomicCmpSwap(&_once, 1, 1) != 1 || !_inited)
 		return FALSE;
 	VERIF_YIELD(12);
 	mtMtxLock(_mtx);
